@@ -17,10 +17,14 @@ import (
 	"fmt"
 	"os"
 
+	"crypto/rsa"
+	"sync"
+
 	"github.com/cloudflare/circl/oprf"
 	"github.com/cloudflare/pat-go/tokens"
 	"github.com/cloudflare/pat-go/tokens/type3"
 	"github.com/cloudflare/pat-go/tokens/type5"
+	"github.com/cloudflare/pat-go/util"
 
 	"verif/mc"
 	"verif/px"
@@ -59,6 +63,23 @@ var oprfKeys = []int{0, 1, 5}
 var rsaKeys = []int{0, 1, 2}
 
 type fin func(resp []byte) (tokens [][]byte, err error)
+
+var siblings sync.Map // RSA key index -> *rsa.PrivateKey
+
+func siblingOf(idx int) *rsa.PrivateKey {
+	if k, ok := siblings.Load(idx); ok {
+		return k.(*rsa.PrivateKey)
+	}
+	k := px.SiblingRSAKey(px.RSAKeys()[idx], 0, func(pub *rsa.PublicKey) []byte {
+		b, err := util.MarshalTokenKeyPSSOID(pub)
+		if err != nil {
+			panic(err)
+		}
+		return b
+	})
+	siblings.Store(idx, k)
+	return k
+}
 
 // wipe plays the caller that scrubs what it was handed once it has serialised it: the token
 // returned by a finalization belongs to the caller, so overwriting it must not reach the request
@@ -167,8 +188,20 @@ func setup(c Case) (finalize fin, resp []byte, verify func(tokens [][]byte) erro
 			wb = px.NewW3(rsaKeys[c.KeyB])
 			wb.Issuer.AddOrigin("origin.example")
 		}
+		// ONE client object makes all requests of the case; its first request goes to yet another issuer
+		// whose token key is a sibling of A's (same modulus, other exponent, key id equal in its first byte)
+		cl := type3.NewRateLimitedClientFromSecret(mc.Fill(seedv, "c02-secret", 48))
 		args := func(req int) px.T3Args {
-			return px.T3Args{Secret: mc.Fill(seedv, "c02-secret", 48), Blind: mc.Fill(seedv, fmt.Sprintf("c02-blind-%d", req), 48), Challenge: chalOf(3, c.KeyA, req), Nonce: nonceOf(3, c.KeyA, req, 0), Origin: "origin.example"}
+			return px.T3Args{Secret: mc.Fill(seedv, "c02-secret", 48), Blind: mc.Fill(seedv, fmt.Sprintf("c02-blind-%d", req), 48), Challenge: chalOf(3, c.KeyA, req), Nonce: nonceOf(3, c.KeyA, req, 0), Origin: "origin.example", Client: &cl}
+		}
+		{
+			mc.Entropy(fmt.Sprintf("c02-w3-sibling-%d", c.KeyA))
+			ws := px.NewW3Key(siblingOf(rsaKeys[c.KeyA]))
+			ws.Issuer.AddOrigin("origin.example")
+			a := args(90)
+			if _, e := ws.Create(a); e != nil {
+				return nil, nil, nil, e
+			}
 		}
 		mc.Entropy(lbl(c.ReqI))
 		sti, e := wa.Create(args(c.ReqI))
